@@ -1,6 +1,7 @@
 """Seeded generators for C17 (identifiers): id strings, reference id lists, event / call histories,
 stub genedb objects for the real classes of src/id_policy.py, and synthetic pipeline scenarios."""
 import itertools
+import os
 
 CHROMS = ["chr1", "chr2", "1", "X", "c", "chr1_KI270706v1_random", "chr.1", "chrUn_1.2", "chr1.nic", "2_3", "chr1.5"]
 
@@ -230,6 +231,61 @@ def real_record_db(chrom, recs):
                               disable_infer_genes=True)
 
 
+def gtf_to_db(gtf, db, complete=True):
+    """the annotation converted to a gffutils database exactly as src/gtf2db.py does it (`--genedb ann.db` is a
+    documented input form: "Provide this database next time to avoid excessive conversion")"""
+    import contextlib
+    import io
+    import gffutils
+    with contextlib.redirect_stderr(io.StringIO()):      # (gffutils writes a progress counter to stderr)
+        gffutils.create_db(gtf, db, force=True, keep_order=True, merge_strategy="error", sort_attribute_values=True,
+                           disable_infer_transcripts=complete, disable_infer_genes=complete)
+    return db
+
+
+# ---------------------------------------------------------------------------------------------
+# the input check (check_gtf_duplicates / check_db_sequences of src/gtf2db.py)
+
+IN_SEQS = ["chr1", "chr1.1", "c"]
+# gene ids and transcript ids come from disjoint pools: gffutils keeps gene and transcript features under ONE primary key, a
+# string used as gene_id on one line and as transcript_id on another is a different malformation (docs/C17.md F8); the case
+# the check knows - gene_id == transcript_id on one line - is generated on purpose (`same_line`)
+IN_GENES = ["G1", "G2", "G1.chr1.1", "G1.1", "G1.c"]
+IN_TRS = ["T1", "T2", "T1.chr1.1", "T1.1", "T1.c"]
+
+
+def rand_gtf_records(rng):
+    """record list [seq, kind, gene_id, transcript_id] of a small annotation: exon-only files (UCSC / RefSeq style) and files
+    with gene / transcript records; ids and sequences from pools small enough that an id on two sequences, a repeated
+    record, an id that already looks like a renamed one (`G1.chr1.1`, `T1.1`) and gene_id == transcript_id are frequent"""
+    style = rng.random()
+    recs = []
+    n_loci = rng.randint(1, 4)
+    same_line = rng.random() < 0.08
+    for _ in range(n_loci):
+        seq = rng.choice(IN_SEQS if rng.random() < 0.7 else IN_SEQS[:1])
+        g = rng.choice(IN_GENES if rng.random() < 0.8 else IN_GENES[:2])
+        if style >= 0.45 and rng.random() < 0.9:
+            recs.append([seq, "gene", g, None])
+        for _ in range(rng.randint(1, 2)):
+            t = rng.choice(IN_TRS if rng.random() < 0.8 else IN_TRS[:2])
+            if same_line and rng.random() < 0.5:
+                t = g
+            if style >= 0.45 and rng.random() < 0.9:
+                recs.append([seq, rng.choice(["transcript", "transcript", "mRNA"]), g, t])
+            for _ in range(rng.randint(1, 2)):
+                recs.append([seq if rng.random() < 0.95 else rng.choice(IN_SEQS), "exon", g, t])
+    return recs
+
+
+def records_text(recs):
+    lines = []
+    for i, (seq, kind, g, t) in enumerate(recs):
+        attr = 'gene_id "%s";' % g + ('' if kind == "gene" else ' transcript_id "%s";' % t)
+        lines.append("%s\tsyn\t%s\t%d\t%d\t.\t+\t.\t%s" % (seq, kind, 100 + 300 * i, 300 + 300 * i, attr))
+    return "\n".join(lines) + "\n"
+
+
 def stub_exon_db(chrom, feats, other=None):
     fs = []
     for e in feats:
@@ -265,16 +321,22 @@ def rand_calls(rng, chrom, feats, n_max=25):
 # transcripts), reference ids that look like IsoQuant ids, reference exon_id attributes
 
 SCEN_CHROMS = ["chr1", "chr2", "chr1.1", "c_2", "X"]
+# sequence names that are ambiguous inside an id: `<chr>.<N>` / `novel_gene_<chr>_<N>` / `transcript<N>.<chr>.nic` of one name
+# read as an id of another one (`1` / `1.1` / `1_1`), names that contain the id prefixes and suffixes themselves
+NAME_POOLS = [SCEN_CHROMS,
+              ["1", "1.1", "1_1", "c", "c_1", "c_1_2"],
+              ["novel_gene_1", "x.nic", "transcript1.c", "c.nnic", "novel_gene_c_1", "c"]]
 
 
-def build_scenario(seed, n_chroms=3, genes_per_chrom=4, reads_per_tx=10, isoquant_style_ref=True, exon_id_attrs=True):
+def build_scenario(seed, n_chroms=3, genes_per_chrom=4, reads_per_tx=10, isoquant_style_ref=True, exon_id_attrs=True,
+                   name_pool=None):
     """returns dict(ds=Dataset with ALL transcripts, ref_genes=[annotation visible to the pipeline], exon_ids={key: id},
     hidden=[transcript names hidden from the annotation])"""
     import random
     from gen import synth
     rng = random.Random(seed)
     ds = synth.Dataset(seed)
-    names = SCEN_CHROMS[:]
+    names = list(name_pool or SCEN_CHROMS)
     rng.shuffle(names)
     names = names[:n_chroms]
     all_genes = []
@@ -400,6 +462,26 @@ def gtf_lines(ref_genes, exon_ids, cds=False):
     return out
 
 
+def gff3_lines(ref_genes, exon_ids, cds=False):
+    """the same annotation as `gtf_lines` in GFF3 (ID / Parent; gene and transcript ids are the ID attributes, the exon_id
+    attribute keeps its name)"""
+    out = ["##gff-version 3"]
+    for l in gtf_lines(ref_genes, exon_ids, cds=cds):
+        c = l.split("\t")
+        a = dict(kv.strip().split(" ", 1) for kv in c[8].strip().strip(";").split(";"))
+        a = {k: v.strip('"') for k, v in a.items()}
+        if c[2] == "gene":
+            attr = "ID=%s;gene_id=%s" % (a["gene_id"], a["gene_id"])
+        elif c[2] == "transcript":
+            attr = "ID=%s;Parent=%s;gene_id=%s;transcript_id=%s" % (a["transcript_id"], a["gene_id"], a["gene_id"], a["transcript_id"])
+        else:
+            attr = "Parent=%s;gene_id=%s;transcript_id=%s" % (a["transcript_id"], a["gene_id"], a["transcript_id"])
+            if "exon_id" in a:
+                attr += ";exon_id=%s" % a["exon_id"]
+        out.append("\t".join(c[:8] + [attr]))
+    return out
+
+
 def write_scenario(sc, d, read_filter=None, cds=True):
     """writes ref.fa, reads.bam and ann.gtf (the *visible* annotation with exon_id attributes); returns paths"""
     ds = sc["ds"]
@@ -407,4 +489,7 @@ def write_scenario(sc, d, read_filter=None, cds=True):
     paths = ds.write(d, reads=reads)
     with open(paths["gtf"], "w") as f:
         f.write("\n".join(gtf_lines(sc["ref_genes"], sc["exon_ids"], cds=cds)) + "\n")
+    paths["gff3"] = os.path.join(d, "ann.gff3")
+    with open(paths["gff3"], "w") as f:
+        f.write("\n".join(gff3_lines(sc["ref_genes"], sc["exon_ids"], cds=cds)) + "\n")
     return paths
